@@ -638,32 +638,72 @@ inline bool packLegal(CircuitSpec &s, Tape &t) {
 }
 
 // ---------------------------------------------------------------------------
-/// Deterministic expansion of one tape word into a long tape (splitmix64): lets
-/// a property append a *large* companion instance to a case without needing a
-/// tape of thousands of words; still a pure function of the tape.
-inline Tape expandTape(uint64_t seed, size_t n) {
-  Tape t;
-  t.w.resize(n);
-  uint64_t x = seed * 0x9E3779B97F4A7C15ULL + 0x632BE59BD9B4E019ULL;
-  for (size_t i = 0; i < n; ++i) {
-    x += 0x9E3779B97F4A7C15ULL;
-    uint64_t z = x;
-    z = (z ^ (z >> 30)) * 0xBF58476D1CE4E5B9ULL;
-    z = (z ^ (z >> 27)) * 0x94D049BB133111EBULL;
-    z ^= z >> 31;
-    t.w[i] = (uint32_t)(z >> 16);
-  }
-  return t;
-}
 /// A large instance (up to 300 movable cells, 24 row levels) derived from one word.
-inline CircuitSpec genLargeCircuit(uint32_t word, GenOpts o) {
+inline CircuitSpec genLargeCircuit(uint32_t word, GenOpts o, int maxCells = 300) {
   Tape big = expandTape(word, 6000);
-  o.maxCells = 300;
+  o.maxCells = maxCells;
   o.maxLevels = 24;
   o.overfull = false;
   CircuitSpec s = genCircuit(big, o);
   s.labels.insert("size:large-companion");
   return s;
+}
+
+/// The rows of a circuit may be given in any order: reorder them (0: as generated, i.e. sorted
+/// by y then x; 1: reversed; 2: rotated; 3: deterministic shuffle).  Pure function of (s, word).
+inline const char *permuteRows(CircuitSpec &s, uint32_t word) {
+  size_t n = s.rows.size();
+  int kind = (int)(word % 4);
+  if (n < 2 || kind == 0) return "rows:order-as-generated";
+  if (kind == 1) {
+    std::reverse(s.rows.begin(), s.rows.end());
+    return "rows:order-reversed";
+  }
+  if (kind == 2) {
+    std::rotate(s.rows.begin(), s.rows.begin() + 1 + (word >> 2) % (n - 1), s.rows.end());
+    return "rows:order-rotated";
+  }
+  Tape w = expandTape(word, n);
+  for (size_t i = n - 1; i > 0; --i) std::swap(s.rows[i], s.rows[w.next() % (i + 1)]);
+  return "rows:order-shuffled";
+}
+
+/// A circuit with exactly the contents of `s`, reached through an object history instead of
+/// a fresh build: it is built from a variant of `s` whose fixed cells sit elsewhere (and may be
+/// turned), `prime` is run on it (its exceptions are ignored), and the object is then brought to
+/// the contents of `s` through the public setters (setCellX/Y/Orientation or setSolution).
+/// Pure function of (s, word).
+template <class Prime>
+inline coloquinte::Circuit buildWithHistory(const CircuitSpec &s, uint32_t word, Prime prime, std::string *routeName = nullptr) {
+  using namespace coloquinte;
+  Tape w = expandTape(word, 4 * s.cells.size() + 4);
+  CircuitSpec v = s;
+  for (auto &c : v.cells)
+    if (c.fixed) {
+      c.x += ((int)(w.next() % 7) - 3) * s.rowHeight;
+      c.y += ((int)(w.next() % 5) - 2) * s.rowHeight;
+      if (w.next() % 3 == 0) c.orient = (int)(w.next() % 8);
+    }
+  Circuit c = v.build();
+  try {
+    prime(c);
+  } catch (const std::exception &) {
+  }
+  bool viaSolution = (word >> 8) & 1;
+  if (routeName) *routeName = viaSolution ? "setSolution" : "setCellX/Y/Orientation";
+  if (viaSolution) {
+    PlacementSolution sol;
+    for (auto &cs : s.cells) sol.push_back(CellPlacement(cs.x, cs.y, (CellOrientation)cs.orient));
+    c.setSolution(sol);
+  } else {
+    std::vector<int> xs, ys;
+    std::vector<CellOrientation> os;
+    for (auto &cs : s.cells) xs.push_back(cs.x), ys.push_back(cs.y), os.push_back((CellOrientation)cs.orient);
+    c.setCellX(xs);
+    c.setCellY(ys);
+    c.setCellOrientation(os);
+  }
+  return c;
 }
 
 // ---------------------------------------------------------------------------
